@@ -46,7 +46,7 @@ PROPS["C01"] = {
     "level_note": "Trusted: the harness's recipe builders and snapshot comparison, ASan/UBSan. Only the fields the statement "
                   "names are compared.",
     "stages": [
-        pbt("roundtrip", "pbt_C01", quick={"cases": 1000, "size": 100, "shards": 4},
+        pbt("roundtrip", "pbt_C01", quick={"cases": 3000, "size": 100, "shards": 8},
             thorough={"cases": 20000, "size": 200, "shards": 16}),
     ],
 }
@@ -63,7 +63,7 @@ PROPS["C07"] = {
     "level_note": "Trusted: harness/oracle/wire.h message-header layout. Padding is recognised as the zero tail after the last "
                   "message whose payload-type byte is non-zero.",
     "stages": [
-        pbt("frame_walker", "pbt_C07", quick={"cases": 1000, "size": 100, "shards": 4},
+        pbt("frame_walker", "pbt_C07", quick={"cases": 3000, "size": 100, "shards": 8},
             thorough={"cases": 20000, "size": 200, "shards": 16}),
     ],
 }
@@ -80,7 +80,7 @@ PROPS["C08"] = {
                   "does not fit an empty frame; segments alone, consecutive, full; append iff fits, same type, no segment).",
     "level_note": "Trusted: harness/oracle/model.h referenceLayout.",
     "stages": [
-        pbt("layout_model", "pbt_C08", quick={"cases": 1000, "size": 100, "shards": 4},
+        pbt("layout_model", "pbt_C08", quick={"cases": 3000, "size": 100, "shards": 8},
             thorough={"cases": 20000, "size": 200, "shards": 16}),
     ],
 }
@@ -96,7 +96,7 @@ PROPS["C09"] = {
                   "with a three-variable model after every operation, including histories that wrap the counter.",
     "level_note": "Trusted: CMP header layout in harness/oracle/wire.h.",
     "stages": [
-        pbt("op_sequences", "pbt_C09", quick={"cases": 300, "size": 100, "shards": 4},
+        pbt("op_sequences", "pbt_C09", quick={"cases": 400, "size": 100, "shards": 8},
             thorough={"cases": 5000, "size": 200, "shards": 16}),
     ],
 }
@@ -112,7 +112,7 @@ PROPS["C10"] = {
                   "sequence counter, with a constant counter offset.",
     "level_note": "The oracle is the library itself on a fresh object (the relation the property states).",
     "stages": [
-        pbt("history_vs_fresh", "pbt_C10", quick={"cases": 800, "size": 100, "shards": 4},
+        pbt("history_vs_fresh", "pbt_C10", quick={"cases": 2400, "size": 100, "shards": 8},
             thorough={"cases": 10000, "size": 200, "shards": 16}),
     ],
 }
@@ -132,7 +132,7 @@ PROPS["C05"] = {
                   "segment's header fields).",
     "level_note": "Trusted: harness/oracle/model.h Reassembler (semantics taken from the property statements).",
     "stages": [
-        pbt("interleavings", "pbt_C05", quick={"cases": 1500, "size": 100, "shards": 4},
+        pbt("interleavings", "pbt_C05", quick={"cases": 4500, "size": 100, "shards": 8},
             thorough={"cases": 20000, "size": 200, "shards": 16}),
     ],
 }
@@ -154,7 +154,7 @@ PROPS["C17"] = {
     "level_note": "Needs the read-only hook Decoder::verifPending(); trusted: reference reassembler.",
     "stages": [
         pbt("bounded_exhaustive", "pbt_C17", mode="enum", quick={}, thorough={"timeout": 7200}),
-        pbt("random_histories", "pbt_C17", quick={"cases": 1500, "size": 100, "shards": 4},
+        pbt("random_histories", "pbt_C17", quick={"cases": 4500, "size": 100, "shards": 8},
             thorough={"cases": 10000, "size": 200, "shards": 16}),
     ],
 }
@@ -170,7 +170,7 @@ PROPS["C18"] = {
                   "frame, those delivered when only that endpoint's frames are fed to a fresh decoder; every packet carries its frame's ids.",
     "level_note": "No reference model; relation stated by the property.",
     "stages": [
-        pbt("projection", "pbt_C18", quick={"cases": 1500, "size": 100, "shards": 4},
+        pbt("projection", "pbt_C18", quick={"cases": 4500, "size": 100, "shards": 8},
             thorough={"cases": 20000, "size": 200, "shards": 16}),
     ],
 }
@@ -194,7 +194,7 @@ PROPS["C06"] = {
     "level_note": "Depends on the decoder only for the oracle-built streams; encoder-built streams are used only if they round-trip unfaulted.",
     "stages": [
         pbt("exhaustive_faults", "pbt_C06", mode="enum", quick={}, thorough={"timeout": 14400}),
-        pbt("random_faults", "pbt_C06", quick={"cases": 1500, "size": 100, "shards": 4},
+        pbt("random_faults", "pbt_C06", quick={"cases": 4500, "size": 100, "shards": 8},
             thorough={"cases": 10000, "size": 200, "shards": 16}),
     ],
 }
@@ -216,7 +216,7 @@ PROPS["C04"] = {
                   "validity and bytes are compared.",
     "level_note": "Trusted: harness/oracle/wire.h layouts, model.h walkFrame and judgePayload.",
     "stages": [
-        pbt("reference_parse", "pbt_C04", quick={"cases": 2000, "size": 100, "shards": 4},
+        pbt("reference_parse", "pbt_C04", quick={"cases": 6000, "size": 100, "shards": 8},
             thorough={"cases": 30000, "size": 200, "shards": 16}),
     ],
 }
@@ -236,7 +236,7 @@ PROPS["C03"] = {
     "level_note": "Trusted: ASan/UBSan, the view predicate in harness/common/views.h.",
     "stages": [
         pbt("bounded_exhaustive", "pbt_C03", mode="enum", quick={}, thorough={"timeout": 7200}),
-        pbt("random_buffers", "pbt_C03", quick={"cases": 5000, "size": 100, "shards": 4},
+        pbt("random_buffers", "pbt_C03", quick={"cases": 15000, "size": 100, "shards": 8},
             thorough={"cases": 100000, "size": 200, "shards": 16}),
     ],
 }
@@ -260,7 +260,7 @@ PROPS["C15"] = {
     "level_note": "Trusted: harness/common/tecmp.h tecmpReference (layout cross-checked against the TECMP captures in the repo's tests).",
     "stages": [
         pbt("sweeps", "pbt_C15", mode="enum", quick={}, thorough={"timeout": 7200}),
-        pbt("generated_frames", "pbt_C15", quick={"cases": 4000, "size": 100, "shards": 4},
+        pbt("generated_frames", "pbt_C15", quick={"cases": 12000, "size": 100, "shards": 8},
             thorough={"cases": 50000, "size": 200, "shards": 16}),
     ],
 }
@@ -282,7 +282,7 @@ PROPS["C02"] = {
     "level_note": "Trusted: ASan/UBSan, libFuzzer; the structure-aware decoder of the fuzz input only shapes the search.",
     "stages": [
         pbt("truncation_field_sweep", "pbt_C02", mode="enum", quick={}, thorough={"timeout": 7200}),
-        pbt("mutated_histories", "pbt_C02", quick={"cases": 1500, "size": 100, "shards": 4},
+        pbt("mutated_histories", "pbt_C02", quick={"cases": 4500, "size": 100, "shards": 8},
             thorough={"cases": 30000, "size": 200, "shards": 16}),
         fuzz("libfuzzer_decode", "fuzz_decode", quick={"workers": 8, "runs": 150000, "max_len": 600, "max_len_big": 4096},
              thorough={"workers": 16, "runs": 10000000, "max_len": 1024, "max_len_big": 65536, "timeout": 14400}),
@@ -308,7 +308,7 @@ PROPS["C11"] = {
     "level_note": "Trusted: the field table in harness/common/fields.h (bit positions of overlapping views).",
     "stages": [
         pbt("exhaustive_values", "pbt_C11", mode="enum", quick={}, thorough={}),
-        pbt("setter_sequences", "pbt_C11", quick={"cases": 5000, "size": 100, "shards": 4},
+        pbt("setter_sequences", "pbt_C11", quick={"cases": 15000, "size": 100, "shards": 8},
             thorough={"cases": 100000, "size": 200, "shards": 16}),
     ],
 }
@@ -330,7 +330,7 @@ PROPS["C12"] = {
     "level_note": "The table is the trusted base; a disagreement on the unchanged tree is investigated as 'which one matches the standard'.",
     "stages": [
         pbt("layout_sweeps", "pbt_C12", mode="enum", quick={}, thorough={}),
-        pbt("generated_writes_and_images", "pbt_C12", quick={"cases": 5000, "size": 100, "shards": 4},
+        pbt("generated_writes_and_images", "pbt_C12", quick={"cases": 15000, "size": 100, "shards": 8},
             thorough={"cases": 100000, "size": 200, "shards": 16}),
     ],
 }
@@ -352,7 +352,7 @@ PROPS["C13"] = {
     "level_note": "Trusted: harness/oracle/wire.h parsers (walkCm, walkIf, header parsers).",
     "stages": [
         pbt("length_sweeps", "pbt_C13", mode="enum", quick={}, thorough={}),
-        pbt("builder_histories", "pbt_C13", quick={"cases": 3000, "size": 100, "shards": 4},
+        pbt("builder_histories", "pbt_C13", quick={"cases": 9000, "size": 100, "shards": 8},
             thorough={"cases": 50000, "size": 200, "shards": 16}),
     ],
 }
@@ -373,7 +373,7 @@ PROPS["C14"] = {
     "level_note": "Needs the read-only hook Packet::verifHasPayload() to observe payload-less packets without undefined behaviour.",
     "stages": [
         pbt("shape_product", "pbt_C14", mode="enum", quick={}, thorough={}),
-        pbt("generated_pairs", "pbt_C14", quick={"cases": 5000, "size": 100, "shards": 4},
+        pbt("generated_pairs", "pbt_C14", quick={"cases": 15000, "size": 100, "shards": 8},
             thorough={"cases": 100000, "size": 200, "shards": 16}),
     ],
 }
@@ -392,7 +392,7 @@ PROPS["C16"] = {
     "level_note": "Trusted: the map model in the driver (written from the statement).",
     "stages": [
         pbt("bounded_exhaustive", "pbt_C16", mode="enum", quick={}, thorough={"timeout": 7200}),
-        pbt("random_sequences", "pbt_C16", quick={"cases": 1500, "size": 100, "shards": 4},
+        pbt("random_sequences", "pbt_C16", quick={"cases": 4500, "size": 100, "shards": 8},
             thorough={"cases": 20000, "size": 200, "shards": 16}),
     ],
 }
@@ -413,9 +413,9 @@ PROPS["C19"] = {
                   "one that is not a data race in TSan's sense, can be missed.",
     "level_note": "Trusted: ThreadSanitizer. See DESIGN.md sec. 7 for the limits.",
     "stages": [
-        pbt("tsan_workloads", "pbt_C19", variant="tsan", quick={"cases": 60, "size": 100, "shards": 4},
+        pbt("tsan_workloads", "pbt_C19", variant="tsan", quick={"cases": 150, "size": 100, "shards": 8},
             thorough={"cases": 1000, "size": 200, "shards": 16}),
-        pbt("asan_workloads", "pbt_C19", variant="asan", quick={"cases": 100, "size": 100, "shards": 2},
+        pbt("asan_workloads", "pbt_C19", variant="asan", quick={"cases": 300, "size": 100, "shards": 8},
             thorough={"cases": 1000, "size": 200, "shards": 8}),
     ],
 }
@@ -440,11 +440,11 @@ PROPS["C20"] = {
     "level_note": "Trusted: valgrind memcheck 3.19; g++ -O1 -g build without sanitizers.",
     "stages": [
         pbt("poisoned_heap_differential", "pbt_C20", variant="plain", replay_wrapper=VALGRIND_WRAPPER,
-            quick={"cases": 1500, "size": 100, "shards": 4, "dump_max": 80, "dump_every": 3},
+            quick={"cases": 4500, "size": 100, "shards": 8, "dump_max": 80, "dump_every": 3},
             thorough={"cases": 20000, "size": 200, "shards": 16, "dump_max": 150, "dump_every": 20}),
         {"kind": "memcheck", "name": "memcheck_definedness", "driver": "pbt_C20", "src": "props/pbt_C20.cpp", "variant": "plain",
          "cases_from": "poisoned_heap_differential", "builds": [("pbt_C20", "plain", "props/pbt_C20.cpp", (), ("-lrapidcheck",))],
-         "quick": {"max_cases": 320, "procs": 16}, "thorough": {"max_cases": 2400, "procs": 16, "timeout": 14400}},
+         "quick": {"max_cases": 640, "procs": 16}, "thorough": {"max_cases": 2400, "procs": 16, "timeout": 14400}},
     ],
 }
 ENGINES.append({"name": "monitors", "path": "/verif/harness/props/pbt_C19.cpp, pbt_C20.cpp", "serves_properties": ["C19", "C20"],
